@@ -266,6 +266,11 @@ def oracle_one(case, obs):
     except Unsupported:
         return [], None, False
     out = []
+    if any(c16.has_nonfinite(m) for m in alts):
+        # RFC 8785 has no text for NaN / Infinity: an object holding one in a contributing property cannot get a
+        # specification-exact id, the library must refuse it (it raises ValueError from the canonicalizer)
+        return [("nonfinite", "a NaN/Infinity inside a contributing property was hashed into the id %r instead of being "
+                              "refused" % obs["id"])], None, False
     if not alts[0]:
         if not is_uuid4_id(ty, obs["id"]):
             out.append(("random", "no contributing property is present but the id %r is not %s--<UUIDv4>" % (obs["id"], ty)))
@@ -1147,6 +1152,7 @@ def evaluate(groups, hp, run=None, tag="c06"):
     by_proj = {}
     pos = 0
     stats = {"ok": 0, "exc": 0, "random": 0, "fallback_multi": 0}
+    oracle_errors = []
     for g in groups:
         base_case, base_obs, base_key = None, None, None
         for c, rel in g:
@@ -1156,7 +1162,11 @@ def evaluate(groups, hp, run=None, tag="c06"):
                 stats["exc"] += 1
             else:
                 stats["ok"] += 1
-            fails, key, fallback = oracle_one(c, o)
+            try:
+                fails, key, fallback = oracle_one(c, o)
+            except Exception as e:  # noqa: BLE001 -- the oracle must not stop the check: report the case, go on
+                fails, key, fallback = [], None, False
+                oracle_errors.append({"case": c, "error": "%s: %s" % (type(e).__name__, str(e)[:200])})
             fb_multi = hashes_fallback_multi(c["props"])
             if fb_multi:
                 stats["fallback_multi"] += 1
@@ -1176,6 +1186,10 @@ def evaluate(groups, hp, run=None, tag="c06"):
                         "same contributing values, different ids: %s vs %s (argument/dictionary order or non-contributing "
                         "properties differ)" % (base_obs["id"], o["id"]),
                         {"kind": "same", "cases": [base_case, c]}, finding=finding))
+    stats["oracle_errors"] = len(oracle_errors)
+    for oe in oracle_errors[:3]:
+        vio.append(Violation("the reference computation failed on the values this object shows (%s); its id cannot be the "
+                             "specification's" % oe["error"], {"kind": "exact", "cases": [oe["case"]]}))
     for (ty, i), keys in by_proj.items():
         if len(keys) > 1:
             vio.append(Violation("different contributing values share the id %s: %s" % (i, sorted(keys)[:2]),
